@@ -484,12 +484,26 @@ def guards(chk, fn, q):
             xtxt = unparse(w.test.left)
             if g:
                 chk.proven('C08-R3', PS, q, key, f'dominated by "if {xtxt} >= {E}[-1]: <exit>" in the same iteration')
-            elif E.startswith('muedges') and _is_mu2(fn, w.test.left):
-                chk.assumed('C08-R3', PS, q, key, 'mu^2 = k^2 / (i^2+j^2+k^2) <= 1 <= muedges[-1]^2 ("mu ranges from 0 to 1")')
             else:
                 chk.refuted('C08-R3', PS, q, key,
                             f'the search "while {xtxt} > {E}[{b} + 1]" is not preceded, in the same iteration, by the exit test '
                             f'"{xtxt} >= {E}[-1]": beyond the last edge the cursor runs off the edge array and the mode is mis-binned', node=w)
+        # lower end of the binned range: a mode below the first edge is skipped, not put into the first bin
+        for (w, E, X) in cur['loops']:
+            xt = unparse(w.test.left)
+            lows = [n_ for n_ in walk_no_nested(fn) if isinstance(n_, ast.If) and isinstance(n_.test, ast.Compare) and len(n_.test.ops) == 1
+                    and isinstance(n_.test.ops[0], ast.Lt) and unparse(n_.test.left) == xt and unparse(n_.test.comparators[0]) == f'{E}[0]'
+                    and n_.body and isinstance(n_.body[-1], (ast.Continue, ast.Break)) and n_.lineno < w.lineno]
+            # E[0] == 0 by construction (squares of linspace(0, ...)) and the searched value is a square: nothing lies below the first edge
+            edef = [n_ for n_ in walk_no_nested(fn) if isinstance(n_, ast.Assign) and len(n_.targets) == 1 and unparse(n_.targets[0]) == E]
+            xdef = [n_ for n_ in walk_no_nested(fn) if isinstance(n_, ast.Assign) and len(n_.targets) == 1 and unparse(n_.targets[0]) == xt]
+            zero_first = len(edef) == 1 and 'np.linspace(0.0,' in unparse(edef[0].value).replace('np.linspace(0,', 'np.linspace(0.0,') and '** 2' in unparse(edef[0].value)
+            square = bool(xdef) and all('** 2' in unparse(d.value) for d in xdef)
+            if zero_first and square and not lows:
+                chk.proven('C08-R3', PS, q, f'search of {E} by {b}: values below {E}[0] are skipped', f'{E}[0] = 0 (squared linspace from 0) and {xt} is a square', nontrivial=False)
+                continue
+            chk.check(bool(lows), 'C08-R3', PS, q, f'search of {E} by {b}: values below {E}[0] are skipped', '',
+                      f'no test "{xt} < {E}[0]: continue" before the search of {E}: a mode below the first edge of the binned range is counted in the first bin', node=w, nontrivial=False)
         # the edge array a mode is compared against is the exact edge in mode units, rounded ONCE to the working precision:
         # an edge at m*dk must become exactly m^2 so that on-edge modes fall deterministically into [lo, hi)
         for E in sorted({E for (w, E, X) in cur['loops']}):
@@ -501,9 +515,13 @@ def guards(chk, fn, q):
                 (isinstance(x.func, ast.Attribute) and x.func.attr == 'astype') or dotted(x.func) in ('dtype', 'np.float32', 'np.float16', 'np.single'))]
             outer = isinstance(v, ast.Call) and ((isinstance(v.func, ast.Attribute) and v.func.attr == 'astype') or dotted(v.func) in ('dtype', 'np.asarray', 'np.array'))
             inner = [c for c in casts if c is not v]
-            chk.check(not inner, 'C08-R3', PS, q, f'{E} is computed in double precision and rounded once', unparse(v)[:70],
-                      f'{E} = {unparse(v)[:80]}: the operands are rounded to the working precision ({unparse(inner[0])[:40] if inner else ""}) before the arithmetic, '
-                      'so an edge that coincides with a mode (m*dk) misses m^2 by an ulp and every mode on that edge moves to the neighbouring bin', node=defs[0], nontrivial=False)
+            exact_side = not E.startswith('muedges')       # |k|^2, k_perp^2, k_par^2 in mode units are exact integers; mu^2 is a rounded quotient anyway
+            chk.check(not inner and not (exact_side and casts), 'C08-R3', PS, q, f'{E} is computed in double precision' + (' and kept in it' if exact_side else ' and rounded once'), unparse(v)[:70],
+                      (f'{E} = {unparse(v)[:80]}: the operands are rounded to the working precision ({unparse(inner[0])[:40]}) before the arithmetic, '
+                       'so an edge that coincides with a mode (m*dk) misses m^2 by an ulp and every mode on that edge moves to the neighbouring bin' if inner else
+                       f'{E} = {unparse(v)[:80]}: the squared edge is rounded to the working precision (float32) while the squared mode number it is compared with is an exact integer: '
+                       'an edge whose square lies just below an integer N is rounded up to N and the whole shell |k|^2 = N goes one bin too low '
+                       '(calc_power defaults, nmesh=256, kbins=65: 1344 modes)'), node=defs[0], nontrivial=False)
         if not cur['ok']:
             chk.refuted('C08-R3', PS, q, f'cursor {b}', f'{b} is modified outside its search loops / initialisation to 0', node=fn)
     if n == 0:
@@ -676,6 +694,20 @@ def accumulators(chk, fn, q):
            and dotted(n.value.func) == 'np.zeros']
     dt = [unparse(k.value) for c in cal for k in c.value.keywords if k.arg == 'dtype']
     chk.check(dt == ['np.int64'], 'C08-R5', PS, q, 'mode counts are int64', '', f'counts dtype {dt}: counts must be exact integers', node=cal[0] if cal else fn)
+    # the running sums are double precision whatever the working dtype: a float32 sum stops growing once it is 2**24 times a
+    # term, i.e. after ~1.7e7 contributions to one (thread, bin) cell -- an ordinary 512^3 mesh with few bins and few threads
+    wide = {}
+    for a in arrs:
+        if a == 'counts':
+            continue
+        al = [n for n in walk_no_nested(fn) if isinstance(n, ast.Assign) and unparse(n.targets[0]) == a and isinstance(n.value, ast.Call) and dotted(n.value.func) in ('np.zeros', 'np.empty')]
+        dts = [unparse(k.value) for c in al for k in c.value.keywords if k.arg == 'dtype']
+        wide[a] = dts
+    narrow = {a: d for a, d in wide.items() if d != ['np.float64']}
+    chk.check(bool(wide) and not narrow, 'C08-R5', PS, q, 'weighted sums are accumulated in float64', f'{sorted(wide)}',
+              f'accumulators {narrow} take the working dtype (float32 by default): with more than ~1.7e7 modes in one (thread, bin) cell the sum saturates while the '
+              'integer count does not, so the reported mean is not the mean over the counted modes (and depends on the thread count)',
+              node=fn, nontrivial=False)
     # reduction after the loop: X = X.sum(axis=0) for every accumulator
     red = {}
     for n in fn.body:
